@@ -308,6 +308,8 @@ def run_chunk(chunk):
         return res
     res = Result()
     with quiet():
+        from ..bridge import reader_history
+        reader_history()            # another corpus was read with gf_separator '#' earlier in the process
         if chunk['kind'] == 'multisep':
             n = 0
             for L in range(0, chunk['maxlen'] + 1):
